@@ -66,6 +66,7 @@ Expected(pre, rec, post) ==
              IF ~rec.res.ok THEN Ok(pre)
              ELSE Ok(EnvHooks(pre, post, FixF4 \/ e.x # "all"))
         [] ev = "Unjail" -> Ok(pre)
+        [] ev = "Jail" -> Ok(pre)
         [] ev = "Accrue" -> Ok(pre)
         [] ev = "AccrueFees" -> IF rec.res.ok THEN Ok([pre EXCEPT !.bank.fee = NoCoins]) ELSE Ok(pre)
         [] ev = "Donate" -> IF rec.res.ok
@@ -81,7 +82,7 @@ Expected(pre, rec, post) ==
         [] ev = "ForkImport" -> Ok(pre)          \* the trace continues on the original state; the re-imported sibling is rec.mirror
         [] OTHER -> Ok(pre)
 
-EnvEvents == {"StakingEndBlock", "NativeDelegate", "NativeUndelegate", "Unjail", "Accrue", "AccrueFees", "RealSlash"}
+EnvEvents == {"StakingEndBlock", "NativeDelegate", "NativeUndelegate", "Unjail", "Jail", "Accrue", "AccrueFees", "RealSlash"}
 StoreFields == {"now", "height", "params", "assets", "vals", "dels", "unbQ", "unbIdx", "redRec", "redIdx", "redQ", "flag", "snaps"}
 BankFields == {"custody", "rewards", "fee", "donated"}
 
@@ -94,7 +95,7 @@ DriftOf(pre, rec, post) ==
       f2 == {f \in BankFields : es.bank[f] # post.bank[f]}
       f3 == IF rec.ev \in EnvEvents \/ rec.ev = "EndBlock" THEN {}
             ELSE {"users"} \cap (IF es.bank.users # post.bank.users THEN {"users"} ELSE {})
-      f4 == IF rec.ev \in {"RealSlash", "Unjail", "Accrue", "AccrueFees", "NativeDelegate", "NativeUndelegate", "StakingEndBlock", "BeginBlock", "Donate", "ExportImport", "ForkImport"} THEN {}
+      f4 == IF rec.ev \in {"RealSlash", "Unjail", "Jail", "Accrue", "AccrueFees", "NativeDelegate", "NativeUndelegate", "StakingEndBlock", "BeginBlock", "Donate", "ExportImport", "ForkImport"} THEN {}
             ELSE IF r.ok # rec.res.ok THEN {"ok"} ELSE {}
   IN  f1 \cup f2 \cup f3 \cup f4
 
